@@ -242,6 +242,16 @@ fn check_case(text: Option<&str>, script: &[Read]) -> CaseResult {
 		// not a JSON array: every read must be an error (-32602) or absent; never a value, never another code
 		for (i, got) in outs.iter().enumerate() {
 			match got {
+				// params that are no array at all (an object, a scalar) have the wrong shape for element-wise reading:
+				// the first read reports it; only after that failed read may an optional read say `absent`
+				Out::Absent if i == 0 && class != "array" && trimmed.is_some_and(|t| t != "null" && !t.is_empty()) => {
+					violations.push(Violation::new(
+						format!("shape-mismatch-read-as-absent/{class}"),
+						format!("the first element-wise read of params that are no array gave `absent` instead of -32602"),
+						witness.clone(),
+					));
+					break;
+				}
 				Out::Err(INVALID_PARAMS) | Out::Absent => {}
 				Out::Err(c) => {
 					violations.push(Violation::new(
